@@ -116,8 +116,9 @@ def confirm(pid, result):
     if block is None:
         conf["note"] = "Kani produced no concrete playback values for the failing check"
         return conf
-    want_miri = failing.klass in kani.UB_CLASSES
-    runs = native_runs(job.harness, job.features, job.debug_assertions, block["values"], want_miri)
+    # Miri is the last resort whenever the plain native runs show no symptom: standard-level UB (wrong
+    # layout handed to realloc/dealloc, out-of-bounds pointer that hits mapped memory, ...) has none.
+    runs = native_runs(job.harness, job.features, job.debug_assertions, block["values"], want_miri=True)
     conf["runs"] = runs
     conf["reproduced"] = any(r.get("exit") == 1 for r in runs.values())
     conf["note"] = "; ".join("%s: %s" % (k, v["message"]) for k, v in runs.items())
